@@ -107,6 +107,12 @@ class PintParser(StringParser):
             return super().parse(tcls, v)
         except UndefinedUnitError as e:
             raise ValueError(str(e))
+        except (ValueError, TypeError):
+            raise
+        except Exception as e:
+            # pint has more ways to fail (tokenizer, evaluation, ...), but pydantic
+            # only treats ValueError/TypeError as validation errors
+            raise ValueError(f"{type(e).__name__}: {e}")
 
 
 @json_encoder(str)
